@@ -1748,15 +1748,17 @@ OptResult NifFile::OptimizeFor(OptOptions& options) {
 										}
 
 										if (part.hasBoneIndices) {
+											// Partitions of skins without weights can have bone indices but no bones
+											auto partBone = [&part](const uint8_t slot) {
+												return slot < part.bones.size() ? static_cast<uint8_t>(part.bones[slot])
+																				: uint8_t(0);
+											};
+
 											auto& boneIndices = part.boneIndices[i];
-											vertex.weightBones[0] = static_cast<uint8_t>(
-												part.bones[boneIndices.i1]);
-											vertex.weightBones[1] = static_cast<uint8_t>(
-												part.bones[boneIndices.i2]);
-											vertex.weightBones[2] = static_cast<uint8_t>(
-												part.bones[boneIndices.i3]);
-											vertex.weightBones[3] = static_cast<uint8_t>(
-												part.bones[boneIndices.i4]);
+											vertex.weightBones[0] = partBone(boneIndices.i1);
+											vertex.weightBones[1] = partBone(boneIndices.i2);
+											vertex.weightBones[2] = partBone(boneIndices.i3);
+											vertex.weightBones[3] = partBone(boneIndices.i4);
 										}
 									}
 								}
